@@ -74,6 +74,7 @@ def instances(pid, n=30):
         elif pid == 'C08q':    # C08_quote_paragraph_document, C08_code_then_paragraph
             line = first_then(rng, 0, 14).rstrip() or 'x'
             out.append(('""\n' + line + '\n""', 0, '<blockquote><p>%s</p></blockquote>' % esc(line), 'theorem-instance:C08_quote_paragraph_document'))
+            out.append(('..\n' + line + '\n..', 0, '<p>%s</p>' % esc(line), 'theorem-instance:C08_division_paragraph_document'))
             lines = [text(rng, WILD, 0, 16) for _ in range(rng.randint(1, 3))]
             lines = [l for l in lines if l != '``'] or ['y']
             out.append(('``\n' + '\n'.join(lines) + '\n``\n\n' + line, 0,
